@@ -64,7 +64,7 @@ def entryOkRvmMemB (e : Entry) : Bool :=
   match e.rule.ops, e.kinds with
   | [f0, f1, f2], [k0, k1, _] =>
     !e.rule.bcst || !anyMemAlt f2 ||
-    ((e.enc == 0x72 || e.enc == 0x75) && (memCoreOkB e (finalOp e 0x75) 0 &&
+    ((e.enc == 0x72 || e.enc == 0x75 || e.enc == 0x73 || e.enc == 0x76) && (memCoreOkB e (finalOp e 0x75) 0 &&
     (f0.role == .reg && (f1.role == .vvvv && (f2.role == .rm && (plainKind k0 && (plainKind k1 && (noFix f0 && (noFix f1 &&
     (formOpMatches e.rule.oszEff f0 (.reg k0 0) && formOpMatches e.rule.oszEff f1 (.reg k1 0)))))))))))
   | _, _ => false
@@ -73,7 +73,7 @@ def entryOkRvmiMemB (e : Entry) : Bool :=
   match e.rule.ops, e.kinds with
   | [f0, f1, f2, f3], [k0, k1, _] =>
     !e.rule.bcst || !anyMemAlt f2 ||
-    ((e.enc == 0x7A || e.enc == 0x7C) && (memCoreOkB e (finalOp e 0x7C) 1 &&
+    ((e.enc == 0x7A || e.enc == 0x7C || e.enc == 0x7B || e.enc == 0x7D) && (memCoreOkB e (finalOp e 0x7C) 1 &&
     (f0.role == .reg && (f1.role == .vvvv && (f2.role == .rm && (f3.role == .imm && (immBitsOf f3 == 8 && (plainKind k0 && (plainKind k1 && (noFix f0 && (noFix f1 &&
     (formOpMatches e.rule.oszEff f0 (.reg k0 0) && formOpMatches e.rule.oszEff f1 (.reg k1 0)))))))))))))
   | _, _ => false
@@ -82,7 +82,7 @@ def entryOkRmMemB (e : Entry) : Bool :=
   match e.rule.ops, e.kinds with
   | [f0, f2], [k0, _] =>
     !e.rule.bcst || !anyMemAlt f2 || lFromBcst e (finalOpM e 0x6B (bcstSizeOf e)) ||
-    ((e.enc == 0x68 || e.enc == 0x6B) && (memCoreOkB e (finalOpM e 0x6B (bcstSizeOf e)) 0 &&
+    ((e.enc == 0x68 || e.enc == 0x6B || e.enc == 0x83 || e.enc == 0x84) && (memCoreOkB e (finalOpM e 0x6B (bcstSizeOf e)) 0 &&
     (f0.role == .reg && (f2.role == .rm && (plainKind k0 && (noFix f0 && formOpMatches e.rule.oszEff f0 (.reg k0 0)))))))
   | _, _ => false
 
